@@ -134,6 +134,13 @@ def corr(ctx):
 # ---------------------------------------------------------------- end-to-end judge
 def judge(doc, nd=3):
     try: out = SVG.fromstring(doc).topicosvg(ndigits=nd).tostring()
+    except ValueError as e:
+        # a duplicate id reported by the final gate although the source's ids are unique was introduced by the conversion
+        if 'reuses id' in str(e):
+            src_ids = ids_of(etree.fromstring(doc.encode()))
+            if len(src_ids) == len(set(src_ids)):
+                return ('instancing / splitting / cloning never introduce a duplicate id', 'unique ids (the source has unique ids)', {'raised': str(e)[:400]})
+        return None
     except Exception: return None
     v = pico.check_refs(out)
     if v: return ('unique ids, every paint reference resolves to a gradient in defs, every gradient in defs is referenced', 'no violations', {'violations': v[:6], 'output': out[:3000]})
